@@ -37,6 +37,13 @@ def main():
     env = dict(os.environ, CARGO_NET_OFFLINE="true", CARGO_TARGET_DIR="/var/tmp/gcv-seed-target")
     meta = {"seed": sid, "property": prop, "ran": []}
     try:
+        old = json.load(open(os.path.join(out, "meta.json")))
+        for k in ("what", "needs", "first_result"):
+            if k in old:
+                meta[k] = old[k]
+    except (OSError, ValueError):
+        pass
+    try:
         rc, o = sh(["git", "-C", "/repo", "worktree", "add", "-q", "--detach", scratch, "HEAD"], "/")
         assert rc == 0, o
         shutil.copy(demo, os.path.join(scratch, "tests", "seeded_demo.rs"))
